@@ -1,4 +1,5 @@
-// Command cursortrace drives stree.Cursor of the working tree.  One case per line:
+// Command cursortrace drives stree.Cursor of the working tree.  One case per line (the B lines for
+// trees of hundreds to thousands of keys are described in scale.go):
 //
 //	W <cmp> <build> <shape> <ops>  |  t:<inorder>;<item>;<item>...
 //
@@ -570,8 +571,8 @@ func shrinkHistory(r *tr.Rand, cmps string, i int) (string, []string) {
 	t := build(cmps, head+strings.Join(ops, "_"), "")
 	keys := inorderKeys(t)
 	keep := max(1, len(keys)/[]int{2, 4, 4, 8}[r.Intn(4)])
-	ord := "sssslhorebB"[r.Intn(11)]
-	for _, j := range removalIdx(ord, len(keys), keep, r.Intn(1000), func() []int { return depthsInorder(t) }) {
+	ord := "ssPPPlhorebB"[r.Intn(12)]
+	for _, j := range removalIdx(ord, len(keys), keep, r.Intn(1000), shapeMetric(t)) {
 		ops = append(ops, "r"+strconv.Itoa(keys[j]))
 	}
 	return head + strings.Join(ops, "_"), []string{"shrink-order-" + string(ord), "shrink-grow-" + string(pat)}
@@ -588,7 +589,7 @@ func (x *gen) bigTrees() {
 	g, r := x.g, tr.NewRand(tr.NewRand(x.g.Seed).Uint64()^0xC03B16)
 	betas := []int{0, 1, 50, 250, 500, 800, 999}
 	pats := "adzr"
-	orders := "lhoibBreEsp"
+	orders := "lhoibBreEspP"
 	adversarial := map[byte]string{'a': "lbe", 'd': "hbE", 'z': "oib", 'r': "rbB", 'i': "oib", 'b': "lhB"}
 	if g.Thorough() {
 		pats = "adzrib"
@@ -658,9 +659,13 @@ func (x *gen) bigTrees() {
 		}
 		run(fmt.Sprintf("A%c:0:%d:3:%d", pat, n, r.Intn(100000)))
 		probeOp()
-		for _, fr := range []int{2, 4, 8, 16} {
+		fracs := []int{2, 4, 8, 16}
+		if beta <= 100 { // Remove rebuilds below max*beta/2000: here the tree can shrink much further unrebuilt
+			fracs = append(fracs, 32, 64)
+		}
+		for _, fr := range fracs {
 			run(fmt.Sprintf("R%c:%d:%d", ord, n/fr, r.Intn(100000)))
-			if ord == 's' || ord == 'p' {
+			if ord == 's' || ord == 'p' || ord == 'P' {
 				known = false
 			}
 			probeOp()
@@ -669,7 +674,7 @@ func (x *gen) bigTrees() {
 			}
 		}
 		run(fmt.Sprintf("A%c:1:%d:3:%d", "adzr"[r.Intn(4)], n/2, r.Intn(100000)))
-		if ord == 's' || ord == 'p' {
+		if ord == 's' || ord == 'p' || ord == 'P' {
 			known = false
 		}
 		probeOp()
@@ -711,18 +716,22 @@ func (x *gen) bigTrees() {
 				}
 				continue
 			}
-			// quick: the real shallow-first order, one order that keeps the keys this growth pattern put
-			// deepest, one order at random
+			// quick: the order that keeps the deepest keys with their ancestors, the real shallow-first
+			// order, and an arithmetic order (one that suits this growth pattern, or any)
 			adv := adversarial[pat]
-			emitOne(beta, pat, 's', sizeFor(beta), "n")
-			emitOne(beta, pat, adv[r.Intn(len(adv))], sizeFor(beta), cmpOf())
-			emitOne(beta, pat, orders[r.Intn(len(orders))], sizeFor(beta), cmpOf())
+			emitOne(beta, pat, 'P', sizeFor(beta), "n")
+			emitOne(beta, pat, 's', sizeFor(beta), cmpOf())
+			if r.Chance(1, 2) {
+				emitOne(beta, pat, adv[r.Intn(len(adv))], sizeFor(beta), cmpOf())
+			} else {
+				emitOne(beta, pat, orders[r.Intn(len(orders))], sizeFor(beta), cmpOf())
+			}
 		}
 	}
 }
 
 func main() {
-	tr.Main("C03: every tree shape with up to 4 (quick) / 5 (thorough) nodes x every start (each key, absent keys, Root, nil, empty) x every sequence of up to 2 (3) of the seven moves, with a clone taken first and re-read after every move; trees built by Add/Replace/Remove/Clear/New histories (ascending and descending vines, zig-zags, churn with delete-side rebuilds, bulk New, random mixes) at β in {0,1,250,500,999,1000,random} under natural, reversed and modular comparators, and from each of them random walks (from random keys and, for trees up to 16 keys, from every key) over all moves, re-anchoring, clones in up to 4 registers, Inorder (full and stopped early) and full Next/Prev sweeps from every key. The real shape and every cursor's real path are read from the node pointers by a hook. A case is non-trivial when the tree has at least two nodes and at least one cursor operation; distinct = distinct input lines.",
+	tr.Main("C03: every tree shape with up to 4 (quick) / 5 (thorough) nodes x every start (each key, absent keys, Root, nil, empty) x every sequence of up to 2 (3) of the seven moves, with a clone taken first and re-read after every move; trees built by Add/Replace/Remove/Clear/New histories (ascending and descending vines, zig-zags, churn with delete-side rebuilds, bulk New, random mixes) at β in {0,1,250,500,999,1000,random} under natural, reversed and modular comparators, and from each of them random walks (from random keys and, for trees up to 16 keys, from every key) over all moves, re-anchoring, clones in up to 4 registers, Inorder (full and stopped early) and full Next/Prev sweeps from every key. Round 3: histories that grow a tree by 16-90 Adds at beta < 1000 and then remove keys (shallowest first by real depth, keeping the deepest root-to-leaf paths, from one end, ...) down to 1/2, 1/4, 1/8, with Cursor/Get/Next/Prev/Up/Min/Max/Inorder from every remaining key; compound walks (several moves, HasNext/HasPrev/Valid/Key calls among them, with nothing else observed in between): every 3-move sequence from every start of every small shape, random ones from every key of the history-built trees and inside the random walks; and big trees (B lines): beta in {0,1,50,250,500,800,999} x growth order (ascending, descending, outside-in, random; thorough also inside-out and ideal breadth-first) x removal order (low end, high end, outside-in, inside-out, ideal breadth-first and its reverse, random, evenly spaced survivors, shallowest/deepest first by real depth, keeping the deepest paths) with sizes 2^k-1, 2^k, 2^k+1 for k = 8..12 (thorough ..13; 100-400 at beta 999 where the tree is a vine), shrunk in stages to 1/2, 1/4, 1/8, 1/16 (1/32, 1/64 at beta <= 100) of the peak and regrown, after every stage from EVERY key: Tree.Cursor valid at the key, Get, flags, real path, Next and Prev steps, a Next/Prev zig-zag, Up to the root, Min, Max, Inorder of the subtree, Cursor of the absent neighbour, and full Min..Next and Max..Prev sweeps, folded into digests (key lists beyond 200 keys too) so that a line stays a few kB, plus explicit walks with clones from the deepest key, from a key whose path slice is exactly full (2^k nodes) and from a random key. The B lines carry no shape: the replay rebuilds the tree with the C01 tree model. The real shape and every cursor's real path are read from the node pointers by a hook. A case is non-trivial when the tree has at least two nodes and at least one cursor operation; distinct = distinct input lines.",
 		exec, func(g *tr.G) {
 			x := &gen{g: g}
 			r := g.R
